@@ -120,3 +120,12 @@ Theorem C18_src_pin_common_copy_xattr : pin_unchanged name_common_copy_xattr.
 Proof. exact pin_common_copy_xattr. Qed.
 Print Assumptions C18_src_pin_common_copy_permissions.
 Print Assumptions C18_src_pin_common_copy_xattr.
+
+(* ---- nothing is carried from one file of a run to the next: the inventory of process-wide state (statics,
+   thread-locals, umask calls) of the current source, regenerated by the translator on every run ---- *)
+From XcpProofs Require Import XState.
+From Coq Require Import String.
+Theorem C18_src_no_state_carried_between_files :
+  x_static_items = ["libxcp/src/backup.rs::BAK_REGEX"%string] /\ x_thread_locals = [] /\ x_umask_calls = 0%N.
+Proof. exact x_process_wide_state_ok. Qed.
+Print Assumptions C18_src_no_state_carried_between_files.
